@@ -126,7 +126,7 @@ class C02(CmpProp):
             head = ('#[::derive_ex::derive_ex(%s)]\n' % r.attr) if r.mode == 'A' else '#[derive(::derive_ex::Ex)]\n'
             nf = max([len(fl) for _, fl in m['variants']] + [0])
             dom = [0, 1, 2, 3] if nf <= 2 else [0, 1, 3]
-            values = G.values_of(m['variants'], dom, [0, 1, 9])
+            values = G.values_of(m['variants'], dom, [0, 1, 2])     # lawful values only (P(9) is NaN-like)
             if len(values) > 40:
                 values = values[::(len(values) // 40 + 1)]
             m['values'] = values
